@@ -560,6 +560,9 @@ func replayMain(path string) int {
 		}
 		w := newWorker(p.ID, "")
 		w.replay = true
+		if v.RunSeed != 0 {
+			os.Setenv("VERIF_SEED", strconv.FormatUint(v.RunSeed, 10))
+		}
 		runCase(p, u, v.Tier, v.CaseSeed, u.ExhaustiveN != nil, w)
 		if len(w.res.Violations) > 0 {
 			for _, x := range w.res.Violations {
